@@ -381,6 +381,12 @@ impl<'a> Gen<'a> {
                 old += 1;
                 new += 1;
             }
+            // neither version of the file ends in a newline and the hunk reaches the end of the file:
+            // the marker follows an unchanged line (decided by the token count, without a draw, so
+            // that the other cases stay what they were)
+            if p.no_newline_marker && prefix_len == 1 && self.next_token % 5 == 0 {
+                self.push("\\ No newline at end of file".into(), LineKind::NoNewline, None, section, hunk);
+            }
         }
         (old, new)
     }
